@@ -167,6 +167,61 @@ def exact_fit_rule(res, fx):
         raise AnalysisBroken('EXACT-FIT: only %d size comparisons found in the reader closure' % n)
 
 
+def min_entry_rule(res, fx, rule='MIN-ENTRY'):
+    """`maxPossible = available / K; if (count > maxPossible) reject` is sound only if K is not larger than the fewest bytes the writer can spend on one entry;
+    the writer's per-entry constant comes from the EFFECT polynomial of the sibling Flatten (c + FS(name) + FS(value), FS(String) >= 1)."""
+    res.rule(rule, 'where a reader bounds a wire count by available/K, K does not exceed the minimum number of bytes the corresponding writer emits per entry (from the writer\'s byte polynomial)', floor=2)
+    n = 0
+    seen_sites = set()
+    for f in sorted((f for f in fx.funcs.values() if f.full and re.search(r'(::Unflatten|::TemplatedUnflatten)$', f.q) and f.file.startswith('message/')), key=lambda f: (f.file, f.line, f.id)):
+        for v in f.walk():
+            if v['k'] != 'VarDecl' or not v['ch']:
+                continue
+            d = A.strip_casts(v['ch'][0])
+            if d['k'] != 'BinaryOperator' or d.get('op') != '/' or not any(x.is_call() and (x.get('q') or '').endswith('::GetNumBytesAvailable') for x in d['ch'][0].walk()):
+                continue
+            kx = A.strip_casts(d['ch'][1])
+            K = kx.get('v')
+            if K is None and kx['k'] == 'DeclRefExpr' and 'd' in kx:
+                for w_ in f.walk():
+                    if w_['k'] == 'VarDecl' and w_['d'] == kx['d'] and w_['ch']:
+                        K = A.strip_casts(w_['ch'][0]).get('v')
+            if K is None:
+                continue
+            cls = f.clsfull
+            if (f.file, v.get('l')) in seen_sites:
+                continue
+            seen_sites.add((f.file, v.get('l')))
+            wname = 'Flatten' if f.q.endswith('::Unflatten') else 'TemplatedFlatten'
+            try:
+                wf, ev = find(fx, cls, wname)
+                pd = ev.io_bytes(wf, 0)
+                poly = E.pstr(pd)
+            except (E.Outside, AnalysisBroken, IndexError, KeyError) as e:
+                raise AnalysisBroken('MIN-ENTRY: writer %s::%s not evaluable: %s' % (cls, wname, e))
+            # per-entry constant = constant inside the SUM over the entries + coefficient of the bare entry-count monomial
+            c = None
+            for mono in pd:
+                if len(mono) == 1 and mono[0].startswith('SUM{'):
+                    m = re.match(r'SUM\{\w+<(.+?)\}\((.*)\)$', mono[0])
+                    if not m:
+                        continue
+                    bound, body = m.group(1), m.group(2)
+                    mb = re.match(r'(?:ALT\{[^}]*\}\()?(\d+)(?= \+|\)|\||$)', body)
+                    c = int(mb.group(1)) if mb else 0
+                    c += pd.get((bound,), 0)
+                    if 'GetKey()' in body:
+                        c += 1          # the field name is a flattened String: at least its NUL byte
+            if c is None:
+                raise AnalysisBroken('MIN-ENTRY: no per-entry term in the writer polynomial of %s: %s' % (cls, poly))
+            n += 1
+            res.ob(rule, f.where(v), '%s: count bound divides the available bytes by %s <= writer minimum %s per entry' % (f.q.split('::')[-2], K, c), K <= c, function=f.q,
+                   how='writer %s' % poly[:120], key='%s|%s' % (rule, f.q),
+                   message='%s bounds the entry count by available/%s, but the writer can emit an entry in %s bytes (%s): valid compact Messages are rejected as corrupt' % (f.q, K, c, poly[:140]))
+    if n < 2:
+        raise AnalysisBroken('MIN-ENTRY: %d count bounds of the form available/K found, expected Message::Unflatten and the variable-size array' % n)
+
+
 INT_SIGN = {'signed char': ('s', 8), 'char': ('s', 8), 'unsigned char': ('u', 8), 'short': ('s', 16), 'unsigned short': ('u', 16), 'int': ('s', 32), 'unsigned int': ('u', 32),
             'long': ('s', 64), 'unsigned long': ('u', 64), 'long long': ('s', 64), 'unsigned long long': ('u', 64), 'bool': ('u', 1), '_Bool': ('u', 1)}
 
@@ -356,6 +411,7 @@ def run(res, tier):
     S.sticky_rule(res, fx, 'STICKY', file_re=r'^(message/|util/String|util/ByteBuffer|support/(Point|Rect|Tuple))', floor=6)
     ring_contiguous_rule(res, fx)
     exact_fit_rule(res, fx)
+    min_entry_rule(res, fx)
     checksum_agree_rule(res, fx, tcs, table)
     res.explanation = ('Static decision of the size/shape half of C01 by symbolic evaluation (no code is run): a small abstract interpreter over the resolved AST turns every serialiser into a polynomial over '
                        'symbolic counts and sub-object sizes (Write*/Read* widths, for/iterator loops as sums, null/flag tests as alternatives, virtual calls resolved in the concrete class, switch tables evaluated '
